@@ -342,6 +342,9 @@ namespace MEDDLY {
                 // Nothing free; remove entry at our slot.
                 //
                 collisions++;
+#ifdef MEDDLY_VERIF
+                MEDDLY_VERIF_PROBE(P_CT_EVICT);
+#endif
                 MEDDLY_DCASSERT(table[h]);
                 deleteEntry(table[h]);
                 table[h] = curr;
@@ -546,6 +549,12 @@ MEDDLY::ct_tmpl<TTYPE, MONOLITHIC, CHAINED, INTSLOTS>::ct_tmpl(
     tableExpand = CHAINED ? 4*1024 : 512;
     tableShrink = 0;
     table.resize(1024, 0);
+#ifdef MEDDLY_VERIF
+    if (verif::ct_min_size) {
+        table.assign(verif::ct_min_size, 0);
+        tableExpand = CHAINED ? 4*table.size() : table.size()/2;
+    }
+#endif
 
     mstats.incMemUsed(table.size() * sizeof(TTYPE));
     mstats.incMemAlloc(table.size() * sizeof(TTYPE));
@@ -834,10 +843,20 @@ void MEDDLY::ct_tmpl<TTYPE,MONOLITHIC,CHAINED,INTSLOTS>
             {
                 equal = true;
                 remove = isDead(*et, currres.vptr, res);
+#ifdef MEDDLY_VERIF
+                if (remove) MEDDLY_VERIF_PROBE(P_CT_DEAD_DISCARD);
+                else if (verif::drop_hit && verif::drop_hit()) {
+                    remove = true;
+                    MEDDLY_VERIF_PROBE(P_CT_HIT_DROPPED);
+                }
+#endif
             } else {
                 equal = false;
                 if (checkStalesOnFind) {
                     remove = isStale(currentry.vptr, false);
+#ifdef MEDDLY_VERIF
+                    if (remove) MEDDLY_VERIF_PROBE(P_CT_STALE_ON_FIND);
+#endif
                 } else {
                     remove = false;
                 }
@@ -847,10 +866,20 @@ void MEDDLY::ct_tmpl<TTYPE,MONOLITHIC,CHAINED,INTSLOTS>
             {
                 equal = true;
                 remove = isDead(*et, currres.vptr, res);
+#ifdef MEDDLY_VERIF
+                if (remove) MEDDLY_VERIF_PROBE(P_CT_DEAD_DISCARD);
+                else if (verif::drop_hit && verif::drop_hit()) {
+                    remove = true;
+                    MEDDLY_VERIF_PROBE(P_CT_HIT_DROPPED);
+                }
+#endif
             } else {
                 equal = false;
                 if (checkStalesOnFind) {
                     remove = isStale(currentry.vptr, false);
+#ifdef MEDDLY_VERIF
+                    if (remove) MEDDLY_VERIF_PROBE(P_CT_STALE_ON_FIND);
+#endif
                 } else {
                     remove = false;
                 }
@@ -925,6 +954,9 @@ void MEDDLY::ct_tmpl<TTYPE,MONOLITHIC,CHAINED,INTSLOTS>
             res.setValid();
             sawSearch(chainlen);
             perf.hits++;
+#ifdef MEDDLY_VERIF
+            MEDDLY_VERIF_PROBE(P_CT_HIT);
+#endif
             batchDelete();
             MMAN->recycleChunk(key->my_entry, key->entry_slots);
             key->entry_slots = 0;
@@ -1028,6 +1060,9 @@ void MEDDLY::ct_tmpl<TTYPE, MONOLITHIC, CHAINED, INTSLOTS>
     //
     // Is it time to GC / resize the table?
     //
+#ifdef MEDDLY_VERIF
+    MEDDLY_VERIF_PROBE(P_CT_ADD);
+#endif
     perf.numEntries++;
     if (perf.numEntries < tableExpand) return;
     perf.resizeScans++;
@@ -1358,10 +1393,20 @@ bool MEDDLY::ct_tmpl<TTYPE,MONOLITHIC,CHAINED,INTSLOTS>
             {
                 equal = true;
                 remove = isDead(ET, curr_res, res);
+#ifdef MEDDLY_VERIF
+                if (remove) MEDDLY_VERIF_PROBE(P_CT_DEAD_DISCARD);
+                else if (verif::drop_hit && verif::drop_hit()) {
+                    remove = true;
+                    MEDDLY_VERIF_PROBE(P_CT_HIT_DROPPED);
+                }
+#endif
             } else {
                 equal = false;
                 if (checkStalesOnFind) {
                     remove = isStale(curr_vptr, false);
+#ifdef MEDDLY_VERIF
+                    if (remove) MEDDLY_VERIF_PROBE(P_CT_STALE_ON_FIND);
+#endif
                 } else {
                     remove = false;
                 }
@@ -1371,10 +1416,20 @@ bool MEDDLY::ct_tmpl<TTYPE,MONOLITHIC,CHAINED,INTSLOTS>
             {
                 equal = true;
                 remove = isDead(ET, curr_res, res);
+#ifdef MEDDLY_VERIF
+                if (remove) MEDDLY_VERIF_PROBE(P_CT_DEAD_DISCARD);
+                else if (verif::drop_hit && verif::drop_hit()) {
+                    remove = true;
+                    MEDDLY_VERIF_PROBE(P_CT_HIT_DROPPED);
+                }
+#endif
             } else {
                 equal = false;
                 if (checkStalesOnFind) {
                     remove = isStale(curr_vptr, false);
+#ifdef MEDDLY_VERIF
+                    if (remove) MEDDLY_VERIF_PROBE(P_CT_STALE_ON_FIND);
+#endif
                 } else {
                     remove = false;
                 }
@@ -1447,6 +1502,9 @@ bool MEDDLY::ct_tmpl<TTYPE,MONOLITHIC,CHAINED,INTSLOTS>
             //
             sawSearch(chainlen);
             perf.hits++;
+#ifdef MEDDLY_VERIF
+            MEDDLY_VERIF_PROBE(P_CT_HIT);
+#endif
             batchDelete();
             MMAN->recycleChunk(key.my_entry, key.entry_slots);
             key.entry_slots = 0;
@@ -1544,6 +1602,9 @@ void MEDDLY::ct_tmpl<TTYPE,MONOLITHIC,CHAINED,INTSLOTS>
     //
     // Is it time to GC / resize the table?
     //
+#ifdef MEDDLY_VERIF
+    MEDDLY_VERIF_PROBE(P_CT_ADD);
+#endif
     perf.numEntries++;
     if (perf.numEntries < tableExpand) return;
     perf.resizeScans++;
@@ -1621,6 +1682,12 @@ void MEDDLY::ct_tmpl<TTYPE, M, CHAINED, I>::removeStales()
     if (perf.numEntries >= tableShrink) return;
     TTYPE newsize = table.size() / 2;
     if (newsize < 1024) newsize = 1024;
+#ifdef MEDDLY_VERIF
+    if (verif::ct_min_size) {
+        newsize = table.size() / 2;
+        if (newsize < verif::ct_min_size) newsize = verif::ct_min_size;
+    }
+#endif
     if (newsize == table.size()) return;
 
     //
@@ -1646,6 +1713,15 @@ void MEDDLY::ct_tmpl<TTYPE, M, CHAINED, I>::removeStales()
             tableShrink = table.size() / 8;
         }
     }
+#ifdef MEDDLY_VERIF
+    if (verif::ct_min_size) {
+        if (table.size() <= verif::ct_min_size) {
+            tableShrink = 0;
+        } else {
+            tableShrink = CHAINED ? table.size() / 2 : table.size() / 8;
+        }
+    }
+#endif
 }
 
 // **********************************************************************
@@ -2677,6 +2753,10 @@ void MEDDLY::ct_tmpl<TTYPE,M,CHAINED,I>::resizeTable(TTYPE newsz)
     //
     // Allocate the new table
     //
+#ifdef MEDDLY_VERIF
+    if (newsz > table.size()) MEDDLY_VERIF_PROBE(P_CT_GROW);
+    else                      MEDDLY_VERIF_PROBE(P_CT_SHRINK);
+#endif
     std::vector <TTYPE> oldtab(newsz, 0);
     mstats.incMemUsed(oldtab.size() * sizeof(TTYPE));
     mstats.incMemAlloc(oldtab.size() * sizeof(TTYPE));
